@@ -1,7 +1,141 @@
-(* C13 — property theorems only (proved in P_Options.v). *)
+(* C13 — extraction options are scoped to their call tree and thread; stubs honoured.
+   Property theorems only (proved in P_Options.v / P_Options_Frames.v).
+
+   [facts_disc] is the storage discipline of the code as it is now, regenerated from the source
+   (gen/SrcFacts.v: c13_options_thread_local, c13_push_restores_in_finally); [run] is the store
+   machine the correspondence evaluates on every generated case; [spec_obs] is the lexically
+   scoped reference semantics written from the property text.  All theorems hold for any number
+   of threads, all programs / histories and ALL schedules. *)
 Require Import Base M_Options P_Options.
+Require M_Frames P_Options_Frames.
 From SS.gen Require Import SrcFacts.
 
-Theorem C13_instance : facts_disc = good.
-Proof. exact facts_disc_good. Qed.
+(* the code has the discipline the theorems need (breaks when the source changes) *)
+Theorem C13_instance :
+  facts_disc = good /\ SrcFacts.c13_entry_points_push = true.
+Proof. exact (conj facts_disc_good code_entry_points_push). Qed.
 Print Assumptions C13_instance.
+
+(* every thread observes a prefix of -- and, once its history is finished, exactly -- the
+   lexically scoped semantics of its own program; afterwards it is outside any extraction *)
+Theorem C13_scoped :
+  forall progs sched t,
+    let st := run facts_disc (init (map flatten progs)) sched in
+    let p := nth t progs PNil in
+    (exists l, spec_obs None p = obs_of st t ++ l)
+    /\ (length (flatten p) <= cnt sched t ->
+        obs_of st t = spec_obs None p /\ cell_of facts_disc st t = None).
+Proof. exact code_scoped. Qed.
+Print Assumptions C13_scoped.
+
+(* the same for histories given as operation lists: every balanced list is the flattening of
+   a program tree, hence covered *)
+Theorem C13_scoped_histories :
+  forall hists sched t, forallb (balanced 0) hists = true ->
+    exists p, nth t hists [] = flatten p
+      /\ (exists l, spec_obs None p = obs_of (run facts_disc (init hists) sched) t ++ l)
+      /\ (length (nth t hists []) <= cnt sched t ->
+          obs_of (run facts_disc (init hists) sched) t = spec_obs None p
+          /\ cell_of facts_disc (run facts_disc (init hists) sched) t = None).
+Proof. exact code_scoped_histories. Qed.
+Print Assumptions C13_scoped_histories.
+
+(* non-interference: observations and visible options of t depend only on t's own history and
+   on how often t was scheduled -- other threads may run anything (not even well-nested) *)
+Theorem C13_noninterference :
+  forall hists hists' sched sched' t,
+    nth t hists [] = nth t hists' [] -> cnt sched t = cnt sched' t ->
+    obs_of (run facts_disc (init hists) sched) t = obs_of (run facts_disc (init hists') sched') t
+    /\ cell_of facts_disc (run facts_disc (init hists) sched) t
+       = cell_of facts_disc (run facts_disc (init hists') sched') t.
+Proof. exact code_noninterference. Qed.
+Print Assumptions C13_noninterference.
+
+(* ... stated as equality with the single-thread run *)
+Theorem C13_equals_single_thread_run :
+  forall hists sched t,
+    obs_of (run facts_disc (init hists) sched) t
+    = obs_of (run facts_disc (init [nth t hists []]) (repeat 0 (cnt sched t))) 0.
+Proof. exact code_single_thread. Qed.
+Print Assumptions C13_equals_single_thread_run.
+
+(* after a call has returned OR has been left by an exception the thread sees the options it
+   saw before the call (h1: arbitrary prefix, calls may still be open: any depth) *)
+Theorem C13_restored :
+  forall hists t h1 blk h2 sched1 sched2,
+    nth t hists [] = h1 ++ flatten blk ++ h2 ->
+    cnt sched1 t = length h1 ->
+    cnt sched2 t = length h1 + length (flatten blk) ->
+    cell_of facts_disc (run facts_disc (init hists) sched2) t
+    = cell_of facts_disc (run facts_disc (init hists) sched1) t
+    /\ kstack (thr (run facts_disc (init hists) sched2) t)
+       = kstack (thr (run facts_disc (init hists) sched1) t)
+    /\ todo (thr (run facts_disc (init hists) sched2) t) = h2.
+Proof. exact code_restored. Qed.
+Print Assumptions C13_restored.
+
+(* extract_child(for_task) under a tower of extract calls of any height: a frameless stub iff
+   for_task and the INNERMOST call did not request recursion; outer levels do not matter *)
+Theorem C13_stub :
+  forall progs sched t lv w rc e ft,
+    nth t progs PNil = nest (lv ++ [((w, rc), e)]) (PChild ft PNil) ->
+    length (flatten (nth t progs PNil)) <= cnt sched t ->
+    obs_of (run facts_disc (init (map flatten progs)) sched) t
+    = [OChild (if ft && negb rc then CStub else CFull)].
+Proof. exact code_stub. Qed.
+Print Assumptions C13_stub.
+
+(* outside any extraction extract_child refuses: before, between and after top-level calls *)
+Theorem C13_refuses_outside :
+  forall progs sched t before ft after,
+    nth t progs PNil = papp before (PChild ft after) ->
+    length (flatten (nth t progs PNil)) <= cnt sched t ->
+    obs_of (run facts_disc (init (map flatten progs)) sched) t
+    = spec_obs None before ++ OChild CRefuse :: spec_obs None after.
+Proof. exact code_refuses_outside. Qed.
+Print Assumptions C13_refuses_outside.
+
+(* with_contexts: the innermost call decides whether contexts are filled, at every depth ... *)
+Theorem C13_with_contexts_off :
+  forall progs sched t lv w rc e,
+    nth t progs PNil = nest (lv ++ [((w, rc), e)]) (PRead PNil) ->
+    length (flatten (nth t progs PNil)) <= cnt sched t ->
+    obs_of (run facts_disc (init (map flatten progs)) sched) t = [ORead (if w then RCtx else REmpty)].
+Proof. exact code_contexts_flag. Qed.
+Print Assumptions C13_with_contexts_off.
+
+(* ... and in the frame model of extract_iter (M_Frames, all hook tables) with_ctx = false
+   yields no contexts on any frame *)
+Theorem C13_with_contexts_off_frames :
+  forall c root frs lf es,
+    M_Frames.with_ctx c = false ->
+    M_Frames.extract c root = M_Frames.Ok (M_Frames.Stack frs lf es) ->
+    P_Options_Frames.no_cx frs.
+Proof. exact P_Options_Frames.frames_model_contexts_off. Qed.
+Print Assumptions C13_with_contexts_off_frames.
+
+(* both parameters of the discipline are needed: with a plain global object, or without the
+   `finally`, the machine produces an observation that violates the reference semantics *)
+Theorem C13_global_store_refuted :
+  exists progs sched t,
+    obs_of (run {| thread_local := false; restore_finally := true |} (init (map flatten progs)) sched) t
+    <> spec_obs None (nth t progs PNil)
+    /\ length (flatten (nth t progs PNil)) <= cnt sched t.
+Proof. exact global_store_refuted. Qed.
+Print Assumptions C13_global_store_refuted.
+
+Theorem C13_no_finally_refuted :
+  exists progs sched t,
+    obs_of (run {| thread_local := true; restore_finally := false |} (init (map flatten progs)) sched) t
+    <> spec_obs None (nth t progs PNil)
+    /\ length (flatten (nth t progs PNil)) <= cnt sched t.
+Proof. exact no_finally_refuted. Qed.
+Print Assumptions C13_no_finally_refuted.
+
+(* the schedule enumeration the exhaustive correspondence cases are checked against contains
+   every interleaving of the threads' operations *)
+Theorem C13_schedules_complete :
+  forall progs s,
+    (forall t, cnt s t = length (flatten (nth t progs PNil))) -> In s (schedules_of progs).
+Proof. exact schedules_of_complete. Qed.
+Print Assumptions C13_schedules_complete.
